@@ -1,4 +1,106 @@
-(* placeholder while the driver is being built *)
-Require Import V.models.SyncDir.
-Theorem C23_placeholder : True. Proof. exact I. Qed.
-Print Assumptions C23_placeholder.
+(* C23 — security profile files are synchronised exactly and fail closed.
+   Property theorems only: statement, `exact <lemma>`, Print Assumptions. Model: models/SyncDir.v
+   (osutil/syncdir.go EnsureDirStateGlobs / EnsureDirState / EnsureFileState, function by function).
+   Every theorem is for EVERY glob predicate mt, umask um, outside table out, directory d (unique names), desired
+   content (unique names, = a Go map), in EVERY visiting order (content is a list) and with EVERY failure point
+   (each entry carries which of its State() calls fails; directories in the way are part of d). *)
+From Coq Require Import List NArith Bool Permutation Sorted String.
+Import ListNotations.
+Require Import V.lib.Bytes V.models.SyncDir V.proofs.SyncDirProofs.
+Open Scope N_scope.
+
+(* success: (1) names not matching the globs are untouched; (2) a matching name exists afterwards iff it is desired,
+   and it then is either the entry that was already in the desired state or the freshly written one;
+   (3) `changed` is exactly the desired names that were not in the desired state; (4) `removed` is exactly the
+   matching, not desired names that existed; (5) both lists sorted and duplicate free *)
+Theorem C23_success_exact : forall mt um out d content, NoDup (names d) -> NoDup (names content) ->
+  let r := ensure_dir_state mt um out d content in
+  r_err r = false ->
+  (forall n, mt n = false -> lookup (r_dir r) n = lookup d n)
+  /\ (forall n, mt n = true ->
+        match lookup content n with
+        | None => lookup (r_dir r) n = None
+        | Some ds => exists v, lookup (r_dir r) n = Some v /\
+                     ((lookup d n = Some v /\ in_state out (Some v) ds = true) \/
+                      (v = written um ds /\ in_state out (lookup d n) ds = false))
+        end)
+  /\ (forall n, In n (r_changed r) <-> exists ds, lookup content n = Some ds /\ in_state out (lookup d n) ds = false)
+  /\ (forall n, In n (r_removed r) <-> mt n = true /\ lookup content n = None /\ lookup d n <> None)
+  /\ StronglySorted le (r_changed r) /\ NoDup (r_changed r)
+  /\ StronglySorted le (r_removed r) /\ NoDup (r_removed r).
+Proof. exact success_exact. Qed.
+Print Assumptions C23_success_exact.
+
+(* ... so, when the umask clears no desired permission bit, every desired name reads as the desired content and
+   permission bits (regular file, opened the way the code opens it) or is the desired symlink *)
+Theorem C23_success_desired_state : forall mt um out d content, NoDup (names d) -> NoDup (names content) ->
+  umask_ok um content = true -> r_err (ensure_dir_state mt um out d content) = false ->
+  forall n ds, lookup content n = Some ds ->
+  exists v, lookup (r_dir (ensure_dir_state mt um out d content)) n = Some v /\ reads_as out v ds = true.
+Proof. exact success_desired_state. Qed.
+Print Assumptions C23_success_desired_state.
+
+(* fail closed: if the change phase fails, an error is returned, nothing is reported changed, and afterwards every
+   matching name is gone except non-empty directories that were already there (os.Remove cannot remove them);
+   non-matching names are untouched; `removed` only lists names that are gone and lists every initially present one *)
+Theorem C23_fail_closed : forall mt um out d content, NoDup (names d) -> NoDup (names content) ->
+  let r := ensure_dir_state mt um out d content in
+  r_wfail r = true ->
+  r_err r = true /\ r_changed r = []
+  /\ (forall n, lookup (r_dir r) n = if mt n then stuck (lookup d n) else lookup d n)
+  /\ (forall n, In n (r_removed r) -> mt n = true /\ lookup (r_dir r) n = None)
+  /\ (forall n, mt n = true -> lookup d n <> None -> lookup (r_dir r) n = None -> In n (r_removed r))
+  /\ StronglySorted le (r_removed r) /\ NoDup (r_removed r).
+Proof. exact fail_closed. Qed.
+Print Assumptions C23_fail_closed.
+
+(* the change phase fails exactly when SOME desired entry cannot be ensured against the initial directory, whichever
+   position it has in the visiting order ... *)
+Theorem C23_failure_points : forall mt um out d content, NoDup (names d) -> NoDup (names content) -> valid_input mt content = true ->
+  (r_wfail (ensure_dir_state mt um out d content) = true <->
+   exists n ds, In (n, ds) content /\ efs um out (lookup d n) ds = FErr).
+Proof. exact failure_points. Qed.
+Print Assumptions C23_failure_points.
+
+(* ... and an entry cannot be ensured when its first or second State() call fails, its type is unsupported, a directory
+   is in the way, or the third State() call fails while the name is not already in the desired state *)
+Theorem C23_entry_failures : forall um out cur ds,
+  (failat ds = 1 \/ failat ds = 2 \/ (exists f, ds = DBad f) \/ (exists e, cur = Some (Dir e))
+   \/ (failat ds = 3 /\ in_state out cur ds = false)) -> efs um out cur ds = FErr.
+Proof. exact efs_fails. Qed.
+Print Assumptions C23_entry_failures.
+
+(* invalid input (path component in a name, name matching no glob) is rejected before anything is touched *)
+Theorem C23_bad_input_no_effect : forall mt um out d content, valid_input mt content = false ->
+  ensure_dir_state mt um out d content = mkResult d [] [] true false.
+Proof. exact bad_input_no_effect. Qed.
+Print Assumptions C23_bad_input_no_effect.
+
+(* the order in which the content map is visited does not matter: same final directory, same changed list, same
+   error verdict; same removed list unless the change phase failed (then files written before the failure are listed) *)
+Theorem C23_order_independent : forall mt um out d content content', NoDup (names d) -> NoDup (names content) ->
+  Permutation content content' ->
+  let r := ensure_dir_state mt um out d content in let r' := ensure_dir_state mt um out d content' in
+  (forall n, lookup (r_dir r) n = lookup (r_dir r') n)
+  /\ r_changed r = r_changed r' /\ r_err r = r_err r' /\ r_wfail r = r_wfail r'
+  /\ (r_wfail r = false -> r_removed r = r_removed r').
+Proof. exact order_independent. Qed.
+Print Assumptions C23_order_independent.
+
+(* ------------------------------------------------------------------ non-vacuity: the hypotheses are met by concrete runs *)
+Local Open Scope string_scope.
+Definition ex_mt := match_any [bs "snap.foo.*"].
+Definition ex_dir := [(bs "snap.foo.a", Reg (bs "old") 420); (bs "snap.foo.gone", Reg (bs "x") 420);
+                      (bs "snap.bar.a", Reg (bs "other") 420); (bs "snap.foo.d", Dir true)].
+Example C23_ex_success :
+  let r := ensure_dir_state ex_mt 18 [] (firstn 3 ex_dir) [(bs "snap.foo.a", DReg (bs "new") 420 0); (bs "snap.foo.b", DSym (bs "t") 0)] in
+  r_err r = false /\ r_changed r = [bs "snap.foo.a"; bs "snap.foo.b"] /\ r_removed r = [bs "snap.foo.gone"]
+  /\ lookup (r_dir r) (bs "snap.foo.a") = Some (Reg (bs "new") 420) /\ lookup (r_dir r) (bs "snap.bar.a") = Some (Reg (bs "other") 420).
+Proof. vm_compute. repeat split. Qed.
+Example C23_ex_fail_closed :
+  let r := ensure_dir_state ex_mt 18 [] ex_dir [(bs "snap.foo.b", DReg (bs "new") 420 0); (bs "snap.foo.a", DReg (bs "new") 420 3)] in
+  r_wfail r = true /\ r_changed r = [] /\ r_removed r = [bs "snap.foo.a"; bs "snap.foo.b"; bs "snap.foo.gone"]
+  /\ names (r_dir r) = [bs "snap.bar.a"; bs "snap.foo.d"].
+Proof. vm_compute. repeat split. Qed.
+Example C23_ex_nodup : NoDup (names ex_dir) /\ umask_ok 18 [(bs "snap.foo.a", DReg (bs "new") 420 0)] = true.
+Proof. split; [|reflexivity]. repeat constructor; cbn; intuition discriminate. Qed.
